@@ -348,7 +348,7 @@ def oracle(trace, nthreads):
     by_label = {}
     started, cancelled, dropped = set(), set(), set()
     pend = {}           # trampoline -> list of ids created and not yet started
-    raised_any = False
+    raised_on = set()   # trampolines whose drain loop was left by an exception
     past = set()        # trampolines that ever got an item whose due time was already past
 
     def flag(sig, detail):
@@ -396,11 +396,11 @@ def oracle(trace, nthreads):
         elif k == "end":
             _, label, tid, trid, raised, inline = ev
             if raised:
-                raised_any = True
                 if not inline:
                     # the exception reaches the drain loop of this trampoline: its queue is abandoned
                     i = by_label.get(label)
                     tr = items[i]["tr"] if i is not None else trid
+                    raised_on.add(tr)
                     for j in pend.get(tr, []):
                         dropped.add(j)
                     pend[tr] = []
@@ -411,6 +411,11 @@ def oracle(trace, nthreads):
     if not any(e[0] in ("hang", "deadlock") for e in trace):
         for i, it in items.items():
             if i not in started and i not in cancelled and i not in dropped:
+                exclusive = it["kind"] in ("CT", "CTS") or nthreads == 1
+                if not exclusive and it["tr"] in raised_on:
+                    # shared trampoline whose drain loop was left by an exception while another thread
+                    # was enqueuing: the exception path abandons the queue (not covered by the statement)
+                    continue
                 flag("lost", {"label": it["label"], "thread": it["tid"], "scheduler": it["kind"]})
     return bad
 
